@@ -4,6 +4,7 @@
 From Coq Require Import ZArith List Bool Lia.
 Import ListNotations.
 From XO Require Import Slots Strides Perm BufOps Types Format Check LayoutProofs RoundTrip Complete UpdateAt Address.
+From XO Require Import Update UpdateAt Alignment.
 From XO Require CopyBytes DecLocal.
 Open Scope Z_scope.
 
@@ -114,6 +115,11 @@ Proof. exact DecLocal.dec_local. Qed.
 Theorem C05_decoded_size : forall t m off v s, has_refs t = false -> dec t m off = Some (v, s) ->
   0 <= s /\ forall cs, csize t = Some cs -> s = cs.
 Proof. exact DecLocal.dec_size. Qed.
+(* ALIGNMENT relative to the object start: the offset of the element any field / index path denotes is a multiple of
+   8 for structs, arrays and strings and a multiple of the number's own size for numbers -- for every type, value,
+   depth and axis order; hence a typed access at (object start + offset) is as aligned as the object start *)
+Theorem C05_element_aligned_relative_to_the_object_start : forall p t v d st, path_off t v p = Some d -> sub_ty t p = Some st -> d mod al st = 0.
+Proof. exact path_off_aligned. Qed.
 Print Assumptions C05_word_roundtrip.
 Print Assumptions C05_slot.
 Print Assumptions C05_decode_scalar.
@@ -133,3 +139,4 @@ Print Assumptions C05_reference_holders_checker_sound.
 Print Assumptions C05_reference_holders_checker_complete.
 Print Assumptions C05_decoder_reads_own_extent_only.
 Print Assumptions C05_decoded_size.
+Print Assumptions C05_element_aligned_relative_to_the_object_start.
